@@ -15,7 +15,10 @@
 EXTENDS Integers, Sequences, FiniteSets
 
 CONSTANTS NStrat,     \* number of strategies probed in parallel
-          Kinds       \* flags of the densified poses, e.g. <<"LAND","LIN","TRACE","LIN","PARK">>
+          Kinds,      \* flags of the densified poses, e.g. <<"LAND","LIN","TRACE","LIN","PARK">>
+          RaiseEarly  \* FALSE: the design as specified.  TRUE: a named deviation in which a strategy raises the stop
+                      \* flag as soon as its trace is complete, BEFORE its own collision check (MC_StrokeDeviation
+                      \* shows that RaceOK then fails: a colliding strategy can cancel the only viable one)
 
 WindowOutcomes == {"direct", "bisect", "rrt", "fail"}
 NW == Len(Kinds) - 1
@@ -58,7 +61,9 @@ Window(s) ==
 
 EndCheck(s) ==
   /\ pc[s] = "endcheck"
-  /\ IF stop THEN Fail(s) ELSE pc' = [pc EXCEPT ![s] = "collcheck"] /\ UNCHANGED <<wi, trace, stop, some>>
+  /\ IF stop THEN Fail(s)
+     ELSE /\ pc' = [pc EXCEPT ![s] = "collcheck"] /\ UNCHANGED <<wi, trace, some>>
+          /\ stop' = (IF RaiseEarly THEN TRUE ELSE stop)
   /\ UNCHANGED <<onb, win, free>>
 
 CollisionCheck(s) ==
